@@ -14,7 +14,7 @@ VALID_OPTS = {"maxiters": [1, 2, 3, 5, 100], "feastol": [1e-3, 1e-5, 1e-9], "abs
               "refinement": [0, 1, 2], "show_progress": [False]}
 INVALID_OPTS = [("maxiters", 0), ("maxiters", 1.5), ("maxiters", "3"), ("maxiters", -2), ("feastol", 0.0), ("feastol", -1e-7),
                 ("feastol", "x"), ("refinement", -1), ("refinement", 0.5), ("abstol", "a"), ("reltol", None),
-                ("kktreg", -1.0), ("abstol+reltol", -1.0)]
+                ("kktreg", -1.0), ("abstol+reltol", -1.0), ("feastol", float("nan")), ("abstol+reltol", float("nan"))]
 
 
 # ------------------------------------------------------------------ byte images
@@ -524,7 +524,7 @@ def oracle(case, stats=None):
                 key, v = s["key"], s["v"]
                 bad = {"show_progress": False}
                 if key == "abstol+reltol":
-                    bad.update(abstol=-1.0, reltol=-1.0)
+                    bad.update(abstol=v, reltol=v)
                 else:
                     bad[key] = v
                 if key == "kktreg" and s["entry"] not in ("conelp", "coneqp", "lp", "qp", "socp", "sdp", "cp", "op"):
